@@ -1703,3 +1703,41 @@ CASES += [
          new="""        let root = bdd;
         let r = BDDSerializer::serialize_helper(root, &mut table, &mut nodes);"""),
 ]
+
+# ------------------------------------------------------------------ UG guarded assignment in unit propagation
+CASES += [
+    dict(name="ug-overwrites-opposite-value", file=UP, rule="UG", props=["C09", "C06"], expect="assigns-unassigned",
+         old="""        match cur_state.get(new_assignment.label()) {
+            None => (),
+            Some(v) => {
+                if v == new_assignment.polarity() {
+                    return UnitPropResult::PartialSAT(cur_state);
+                } else {
+                    return UnitPropResult::UNSAT;
+                }
+            }
+        };""",
+         new="""        if let Some(v) = cur_state.get(new_assignment.label()) {
+            if v == new_assignment.polarity() {
+                return UnitPropResult::PartialSAT(cur_state);
+            }
+        }"""),
+    dict(name="ug-guard-by-is-set-ok", file=UP, rule="UG", props=["C09", "C06"], expect=None,
+         old="""        match cur_state.get(new_assignment.label()) {
+            None => (),
+            Some(v) => {
+                if v == new_assignment.polarity() {
+                    return UnitPropResult::PartialSAT(cur_state);
+                } else {
+                    return UnitPropResult::UNSAT;
+                }
+            }
+        };""",
+         new="""        if cur_state.is_set(new_assignment.label()) {
+            return if cur_state.get(new_assignment.label()) == Some(new_assignment.polarity()) {
+                UnitPropResult::PartialSAT(cur_state)
+            } else {
+                UnitPropResult::UNSAT
+            };
+        }"""),
+]
